@@ -9,7 +9,8 @@
 (***************************************************************************)
 EXTENDS GT, FiniteSets
 
-CONSTANTS Ds, Rs, Kinds, Keys, MaxDeviate, KLMs, FactorKindsC14
+CONSTANTS Ds, Rs, Kinds, Keys, MaxDeviate, KLMs, FactorKindsC14,
+          Warm     \* cache state of the measure before the integral: subset of {"none", "light", "full", "normalize", "integral"}
 
 n == Len(hist)
 u1 == heap[1]
@@ -86,15 +87,24 @@ NewF(k, d, R, s) ==
 
 Init == heap = <<>> /\ hist = <<>>
 
+Nop == Emit(heap, Step("Nop", [x |-> 0], NoObj, 0, NoObj, 0, NoObj, NoObj))
+WarmStep(w) ==
+    CASE w = "none" -> Nop
+      [] w = "light" -> AQuery(1, "log_integral_light")       \* lnZ cached, covariance possibly not
+      [] w = "full" -> AQuery(1, "log_integral")
+      [] w = "normalize" -> ANormalize(1)
+      [] w = "integral" -> AIntegrate(1, "x", NoCoef, NoCoef, NoCoef, NoCoef)      \* an earlier integral on the same object
+
 Next ==
     \/ n = 0 /\ \E d \in Ds, k \in Kinds, R \in Rs : NewU(k, d, R)
-    \/ n = 1 /\ \E key \in Keys :
+    \/ n = 1 /\ \E w \in Warm : WarmStep(w)
+    \/ n = 2 /\ \E key \in Keys :
           IF key \in {"x(A'x + a)x'", "xb'xx'"} THEN \E c \in 1..9 : Special(key, c)
           ELSE \E klm \in KLMs, w \in Words(NForms(key)) : RowsOK(key, klm, w) /\ General(key, klm, w)
-    \/ n = 1 /\ \E k \in FactorKindsC14, R \in {1, NumR(u1)} : NewF(k, d0, R, 1)
-    \/ n = 2 /\ hist[2].act # "Integrate" /\ AIntegrateLogFactor(1, 2)
+    \/ n = 2 /\ \E k \in FactorKindsC14, R \in {1, NumR(u1)} : NewF(k, d0, R, 1)
+    \/ n = 3 /\ hist[3].act # "Integrate" /\ AIntegrateLogFactor(1, 2)
 
-Done == \/ n = 2 /\ hist[2].act = "Integrate"
-        \/ n = 3
+Done == \/ n = 3 /\ hist[3].act = "Integrate"
+        \/ n = 4
 Inv_Export == Export(Done)
 =============================================================================
